@@ -129,3 +129,58 @@ func Sharing() {
 	checkAllReleased(e, "C16.after_factory_close")
 	vx.Reach("C16.sharing_end")
 }
+
+// HitVersusEviction: partition p0 sits in the session cache with no holder; one goroutine asks for it again (a cache
+// hit) while another asks for a different partition (a miss that evicts p0). Whatever the interleaving of the two
+// GetSession / Close calls - including the eviction and the teardown goroutine running between the lookup and the
+// hand-out - the session handed out for p0 works until its holder closes it, and everything is released exactly
+// once in the end. (Pre-emption is explored inside GetSession and Close; the use of the held session in between
+// runs without pre-emption, which is all this window needs.)
+func HitVersusEviction() {
+	e := env.New()
+	f := e.Factory(policy(e))
+	vx.Now()
+	vx.ClockFreeze(true)
+	warm, err := f.GetSession("p0")
+	vx.Assert("C16.getsession_ok", err == nil && warm != nil)
+	_, err = warm.Encrypt(env.Ctx, []byte{1})
+	vx.Assert("C16.warm_encrypt_ok", err == nil)
+	warm.Close()
+	vx.Drain()
+	// the window of interest is the session cache's lookup-and-hand-out: explore pre-emption there (and in the
+	// teardown of an evicted session), not inside the key caches and secrets underneath
+	vx.PreemptWithin("cacheWrapper")
+	done := make(chan int, 2)
+	worker := func(part string, b byte, atomic bool) {
+		// the evicting caller runs as one step (it may start at any point of the other caller's GetSession / Close)
+		if atomic {
+			vx.NoPreempt(true)
+		}
+		s, err := f.GetSession(part)
+		if atomic {
+			vx.NoPreempt(false)
+		}
+		vx.NoPreempt(true)
+		vx.Assert("C16.getsession_ok", err == nil && s != nil)
+		r, err := s.Encrypt(env.Ctx, []byte{b})
+		vx.Assert("C16.held_session_encrypts", err == nil)
+		if err == nil {
+			out, err := s.Decrypt(env.Ctx, *r)
+			vx.Assert("C16.held_session_still_works_after_churn", vx.And(err == nil, vx.BytesEq(out, []byte{b})))
+		}
+		vx.NoPreempt(false)
+		vx.Assert("C16.close_ok", s.Close() == nil)
+		done <- 1
+	}
+	go worker("p0", 61, false)
+	go worker("p1", 62, true)
+	<-done
+	<-done
+	vx.PreemptWithin("")
+	vx.Drain()
+	vx.Assert("C16.no_key_used_after_release", e.Secrets.UseAfterClose() == 0)
+	f.Close()
+	vx.Drain()
+	checkAllReleased(e, "C16.after_factory_close")
+	vx.Reach("C16.hit_vs_eviction_end")
+}
